@@ -227,8 +227,13 @@ def clear_state():
     """Reset global state of the code under test (lru_caches of scippneutron.atoms)."""
     from scippneutron import atoms
 
-    atoms.Atom.for_isotope.cache_clear()
-    atoms.ScatteringParams.for_isotope.cache_clear()
+    holders = [atoms, *[v for v in vars(atoms).values() if inspect.isclass(v)
+                        and v.__module__ == atoms.__name__]]
+    for holder in holders:
+        for attr in list(vars(holder).values()):
+            fn = attr.__func__ if isinstance(attr, staticmethod | classmethod) else attr
+            if hasattr(fn, "cache_clear"):
+                fn.cache_clear()
 
 
 @dataclasses.dataclass
@@ -309,26 +314,35 @@ def build_binned(d, coord_name):
                    data=table)
 
 
+_KERNEL_OPERANDS = {"tof": "time", "Ltotal": "length", "L1": "length", "L2": "length",
+                    "two_theta": "angle", "incident_energy": "energy", "final_energy": "energy",
+                    "wavelength": "wavelength", "energy": "energy", "Q": "Q"}
+_DATA_OPERANDS = ("tof", "wavelength", "energy", "Q")
+
+
 @st.composite
 def _s_kernel(draw):
-    name = draw(st.sampled_from(sorted(_KERNELS)))
+    """One operand per argument name; every kernel is called on them in every case (Hypothesis
+    does not sample a choice among 11 kernels evenly enough to rely on it)."""
     sizes = draw(s_sizes())
     ops = {}
-    for i, (arg, q) in enumerate(_KERNELS[name]):
-        choices = [[], ["x"], ["spectrum"], ["spectrum", "x"]] if i == 0 else \
+    for arg, q in _KERNEL_OPERANDS.items():
+        choices = [[], ["x"], ["spectrum"], ["spectrum", "x"]] if arg in _DATA_OPERANDS else \
             [[], [], ["spectrum"], ["x"], ["spectrum", "x"]]
         ops[arg] = draw(s_var(q, draw(s_dims(choices)), sizes))
-    return {"fn": name, "ops": ops}
+    return {"ops": ops}
 
 
 @recipe("tof_kernels", "conversion",
         ["conversion.tof." + k for k in _KERNELS], _s_kernel,
-        doc="scalar kernels of conversion.tof, every operand with its own dims/unit/dtype")
+        doc="all scalar kernels of conversion.tof, every operand with its own dims/unit/dtype")
 def _r_kernel(a, W):
     from scippneutron.conversion import tof as K
 
     args = {k: W.var(d) for k, d in a["ops"].items()}
-    W.call("conversion.tof." + a["fn"], getattr(K, a["fn"]), **args)
+    for fn, spec in _KERNELS.items():
+        W.call("conversion.tof." + fn, getattr(K, fn), watch={"all": args},
+               **{arg: args[arg] for arg, _ in spec})
 
 
 @st.composite
@@ -2140,7 +2154,7 @@ def _clip(x, n=400):
 
 @st.composite
 def s_graph_history(draw):
-    names = sorted(GRAPH_FACTORIES)
+    names = sorted(GRAPH_FACTORIES) + [_CC_ + "conversion_graph", _CC_ + "deduce_conversion_graph"] * 2
     nops = draw(st.integers(2, 8))
     ops = []
     ncalls = 0
@@ -2153,7 +2167,7 @@ def s_graph_history(draw):
             ncalls += 1
         else:
             ops.append({"op": "mut", "i": draw(st.integers(0, 3)),
-                        "how": draw(st.sampled_from(["pop", "insert", "overwrite", "clear",
+                        "how": draw(st.sampled_from(["overwrite", "insert", "pop", "clear",
                                                      "update", "reorder", "popitem"])),
                         "k": draw(st.integers(0, 9)), "j": draw(st.integers(0, 3))})
     return {"ops": ops}
@@ -2400,12 +2414,15 @@ def _spec_bounds(spec):
 def s_model_history(draw):
     nops = draw(st.integers(2, 8))
     ops = []
-    prefixes = ["", "a_", "b_", "peak_", "bkg_"]
+    prefixes = ["", "a_", "b_", "peak_", "bkg_", "c_", "d_", "e_"]
     for i in range(nops):
         kind = "new" if i == 0 else draw(st.sampled_from(
-            ["new", "with_prefix", "add", "names", "bounds", "mut_set", "mut_set", "mut_dict",
-             "mut_dict"]))
+            ["mut_set", "mut_dict", "with_prefix", "add", "names", "bounds", "mut_set",
+             "mut_dict", "new"]))
         op = {"op": kind, "i": draw(st.integers(0, 5)), "j": draw(st.integers(0, 5))}
+        if kind == "add":
+            # right operand: an existing model (may clash) or a new one with a unique prefix
+            op["fresh_right"] = draw(st.sampled_from([None, *_MODEL_CLASSES]))
         if kind == "new":
             op.update(cls=draw(st.sampled_from(_MODEL_CLASSES)), degree=draw(st.integers(1, 3)),
                       prefix=draw(st.sampled_from(prefixes)))
@@ -2414,6 +2431,7 @@ def s_model_history(draw):
         elif kind in ("mut_set", "mut_dict"):
             op["how"] = draw(st.sampled_from(["add", "discard", "clear"] if kind == "mut_set"
                                              else ["pop", "insert", "overwrite", "clear"]))
+            op["make"] = draw(st.booleans())   # take a fresh set/dict from model i first
             op["k"] = draw(st.integers(0, 5))
         ops.append(op)
     return {"ops": ops}
@@ -2440,7 +2458,14 @@ def check_model_history(case):
             m, spec = models[op["i"] % len(models)]
             models.append((m.with_prefix(op["prefix"]), {**spec, "prefix": op["prefix"]}))
         elif kind == "add":
-            (m1, s1), (m2, s2) = models[op["i"] % len(models)], models[op["j"] % len(models)]
+            m1, s1 = models[op["i"] % len(models)]
+            if op.get("fresh_right"):
+                s2 = {"kind": "leaf", "cls": op["fresh_right"], "degree": 1,
+                      "prefix": f"u{step}_"}
+                m2 = _make_model(s2["cls"], s2["prefix"], 1)
+                models.append((m2, s2))
+            else:
+                m2, s2 = models[op["j"] % len(models)]
             clash = _spec_names(s1) & _spec_names(s2)
             try:
                 m = m1 + m2
@@ -2461,8 +2486,10 @@ def check_model_history(case):
             sets.append(models[op["i"] % len(models)][0].param_names)
         elif kind == "bounds":
             dicts.append(models[op["i"] % len(models)][0].param_bounds)
-        elif kind == "mut_set" and sets:
-            s = sets[op["i"] % len(sets)]
+        elif kind == "mut_set" and (sets or op.get("make")):
+            if op.get("make") or not sets:
+                sets.append(models[op["j"] % len(models)][0].param_names)
+            s = sets[op["i"] % len(sets)] if not op.get("make") else sets[-1]
             if op["how"] == "add":
                 s.add(f"injected{op['k']}")
             elif op["how"] == "discard" and s:
@@ -2471,8 +2498,10 @@ def check_model_history(case):
                 s.clear()
             mutated = True
             labels.append("mut:set:" + op["how"])
-        elif kind == "mut_dict" and dicts:
-            d = dicts[op["i"] % len(dicts)]
+        elif kind == "mut_dict" and (dicts or op.get("make")):
+            if op.get("make") or not dicts:
+                dicts.append(models[op["j"] % len(models)][0].param_bounds)
+            d = dicts[op["i"] % len(dicts)] if not op.get("make") else dicts[-1]
             keys = sorted(d)
             if op["how"] == "pop" and keys:
                 d.pop(keys[op["k"] % len(keys)])
@@ -2536,14 +2565,16 @@ def _render_block(b):
     return f.getvalue()
 
 
-def _fresh_cif(model):
-    """A builder made from nothing but the model (its own lineage of constructor arguments)."""
+def _fresh_cif(lineage):
+    """A builder made by replaying nothing but its own lineage of operations on fresh objects."""
     from scippneutron import metadata
     from scippneutron.io import cif
 
-    c = cif.CIF(model["name0"], comment=model["comment0"])
-    for kind, arg in model["items"]:
-        if kind == "authors":
+    c = None
+    for kind, arg in lineage:
+        if kind == "new":
+            c = cif.CIF(arg["name"], comment=arg["comment"])
+        elif kind == "authors":
             c = c.with_authors(*build_people(arg))
         elif kind == "reducers":
             c = c.with_reducers(*arg)
@@ -2553,22 +2584,47 @@ def _fresh_cif(model):
             c = c.with_reduced_powder_data(build_powder(arg))
         elif kind == "cal":
             c = c.with_powder_calibration(build_calibration(arg))
-    if model["name"] != model["name0"]:
-        c.name = model["name"]
-    if model["comment"] != model["comment0"]:
-        c.comment = model["comment"]
+        elif kind == "copy":
+            c = c.copy()
+        elif kind == "set_name":
+            c.name = arg
+        elif kind == "set_comment":
+            c.comment = arg
+        elif kind == "save":
+            c.save(io.StringIO())
     return c
 
 
-def _fresh_block(model):
+def _fresh_block(lineage):
     from scippneutron.io import cif
 
-    b = cif.Block(model["name0"], [dict(p) for p in model["initial"]])
-    for p in model["added"]:
-        b.add(dict(p))
-    if model["name"] != model["name0"]:
-        b.name = model["name"]
+    b = None
+    for kind, arg in lineage:
+        if kind == "new":
+            b = cif.Block(arg["name"], [dict(p) for p in arg["pairs"]])
+        elif kind == "add":
+            b.add(dict(arg))
+        elif kind == "copy":
+            b = b.copy()
+        elif kind == "set_name":
+            b.name = arg
     return b
+
+
+def _lineage_summary(lineage):
+    """What the lineage says about the saved text (independent of the implementation)."""
+    name, comment = "", ""
+    counts = {"beamline": 0, "powder": 0, "cal": 0}
+    for kind, arg in lineage:
+        if kind == "new":
+            name, comment = arg["name"], arg.get("comment", "")
+        elif kind == "set_name":
+            name = arg
+        elif kind == "set_comment":
+            comment = arg
+        elif kind in counts:
+            counts[kind] += 1
+    return name, comment, counts
 
 
 _NAMES = ["", "blk", "other", "data-1"]
@@ -2583,9 +2639,9 @@ def s_cif_history(draw):
     ops = []
     for i in range(nops):
         kind = "new_cif" if i == 0 else draw(st.sampled_from(
-            ["new_cif", "authors", "reducers", "beamline", "powder", "cal", "copy", "copy",
-             "set_name", "set_comment", "save", "new_block", "block_add", "block_add",
-             "block_copy", "block_set_name"]))
+            ["copy", "reducers", "cal", "beamline", "authors", "powder", "set_name", "block_add",
+             "block_copy", "set_comment", "save", "new_block", "copy", "block_add",
+             "block_set_name", "new_cif"]))
         op = {"op": kind, "i": draw(st.integers(0, 5))}
         if kind == "new_cif":
             op.update(name=draw(st.sampled_from(_NAMES)), comment=draw(st.sampled_from(["", "c"])))
@@ -2618,102 +2674,87 @@ def check_cif_history(case):
     from scippneutron.io import cif
 
     clear_state()
-    cifs, blocks = [], []       # (live object, model)
+    cifs, blocks = [], []       # [live object, lineage]
     labels = []
     derived = False
     for step, op in enumerate(case["ops"]):
         kind = op["op"]
         labels.append("op:" + kind)
-        pick = (lambda: cifs[op["i"] % len(cifs)]) if cifs else None
-        pickb = (lambda: blocks[op["i"] % len(blocks)]) if blocks else None
+        pick = cifs[op["i"] % len(cifs)] if cifs else None
+        pickb = blocks[op["i"] % len(blocks)] if blocks else None
         if kind == "new_cif":
-            c = cif.CIF(op["name"], comment=op["comment"])
-            cifs.append((c, {"name0": op["name"], "comment0": op["comment"], "name": op["name"],
-                             "comment": op["comment"], "items": []}))
+            arg = {"name": op["name"], "comment": op["comment"]}
+            cifs.append([cif.CIF(op["name"], comment=op["comment"]), [("new", arg)]])
         elif kind == "new_block":
-            b = cif.Block(op["name"], [dict(p) for p in op["pairs"]])
-            blocks.append((b, {"name0": op["name"], "name": op["name"], "initial": op["pairs"],
-                               "added": []}))
+            arg = {"name": op["name"], "pairs": op["pairs"]}
+            blocks.append([cif.Block(op["name"], [dict(p) for p in op["pairs"]]), [("new", arg)]])
         elif kind in ("authors", "reducers", "beamline", "powder", "cal", "copy"):
             if pick is None:
                 continue
-            c, model = pick()
-            new_model = _copy.deepcopy(model)
-            # the derived builder is constructed with the *current* name/comment of its parent
-            new_model["name0"], new_model["comment0"] = model["name"], model["comment"]
+            c, lineage = pick
             if kind == "authors":
-                c2 = c.with_authors(*build_people(op["people"]))
-                new_model["items"].append(("authors", op["people"]))
+                c2, arg = c.with_authors(*build_people(op["people"])), op["people"]
             elif kind == "reducers":
-                c2 = c.with_reducers(*op["reducers"])
-                new_model["items"].append(("reducers", op["reducers"]))
+                c2, arg = c.with_reducers(*op["reducers"]), op["reducers"]
             elif kind == "beamline":
-                b = op["beamline"]
-                c2 = c.with_beamline(metadata.Beamline(name=b["name"], facility=b["facility"]))
-                new_model["items"].append(("beamline", b))
+                arg = op["beamline"]
+                c2 = c.with_beamline(metadata.Beamline(name=arg["name"], facility=arg["facility"]))
             elif kind == "powder":
-                c2 = c.with_reduced_powder_data(build_powder(op["powder"]))
-                new_model["items"].append(("powder", op["powder"]))
+                c2, arg = c.with_reduced_powder_data(build_powder(op["powder"])), op["powder"]
             elif kind == "cal":
-                c2 = c.with_powder_calibration(build_calibration(op["cal"]))
-                new_model["items"].append(("cal", op["cal"]))
+                c2, arg = c.with_powder_calibration(build_calibration(op["cal"])), op["cal"]
             else:
-                c2 = c.copy()
-            cifs.append((c2, new_model))
+                c2, arg = c.copy(), None
+            cifs.append([c2, [*lineage, (kind, arg)]])
             derived = True
         elif kind == "set_name" and pick is not None:
-            c, model = pick()
-            c.name = op["name"]
-            model["name"] = op["name"]
+            pick[0].name = op["name"]
+            pick[1].append(("set_name", op["name"]))
         elif kind == "set_comment" and pick is not None:
-            c, model = pick()
-            c.comment = op["comment"]
-            model["comment"] = op["comment"]
+            pick[0].comment = op["comment"]
+            pick[1].append(("set_comment", op["comment"]))
         elif kind == "save" and pick is not None:
-            pick()[0].save(io.StringIO())
+            pick[0].save(io.StringIO())
+            pick[1].append(("save", None))
         elif kind == "block_add" and pickb is not None:
-            b, model = pickb()
-            b.add(dict(op["pairs"]))
-            model["added"].append(op["pairs"])
+            pickb[0].add(dict(op["pairs"]))
+            pickb[1].append(("add", op["pairs"]))
         elif kind == "block_copy" and pickb is not None:
-            b, model = pickb()
-            new_model = _copy.deepcopy(model)
-            new_model["name0"] = model["name"]
-            blocks.append((b.copy(), new_model))
+            blocks.append([pickb[0].copy(), [*pickb[1], ("copy", None)]])
             derived = True
         elif kind == "block_set_name" and pickb is not None:
-            b, model = pickb()
-            b.name = op["name"]
-            model["name"] = op["name"]
-        # invariant: every live object renders like a fresh object built from its own lineage
-        for idx, (c, model) in enumerate(cifs):
-            got, want = _render_cif(c), _render_cif(_fresh_cif(model))
-            counts = {
-                "_diffrn_source.beamline ": sum(k == "beamline" for k, _ in model["items"]),
-                "_pd_calib_d_to_tof.id": sum(k == "cal" for k, _ in model["items"]),
-                "_pd_data.point_id": sum(k == "powder" for k, _ in model["items"]),
-                f"data_{model['name']}\n": 1,
-            }
-            bad = [f"{tok!r} x{got.count(tok)} (expected {n})" for tok, n in counts.items()
-                   if got.count(tok) != n]
-            if c.name != model["name"] or c.comment != model["comment"]:
-                bad.append(f"name/comment {c.name!r}/{c.comment!r} != "
-                           f"{model['name']!r}/{model['comment']!r}")
+            pickb[0].name = op["name"]
+            pickb[1].append(("set_name", op["name"]))
+        # invariant: every live object saves what a fresh replay of its own lineage saves, and
+        # what the lineage itself says (name, comment, number of items of each kind)
+        for idx, (c, lineage) in enumerate(cifs):
+            got, want = _render_cif(c), _render_cif(_fresh_cif(lineage))
+            name, comment, n = _lineage_summary(lineage)
+            counts = {"_diffrn_source.beamline ": n["beamline"], "_pd_calib_d_to_tof.id": n["cal"],
+                      "_pd_data.point_id": n["powder"], f"data_{name}\n": 1}
+            bad = [f"{tok!r} x{got.count(tok)} (expected {k})" for tok, k in counts.items()
+                   if got.count(tok) != k]
+            if c.name != name or c.comment != comment:
+                bad.append(f"name/comment {c.name!r}/{c.comment!r} != {name!r}/{comment!r}")
             if got != want or bad:
                 raise Violation(
                     "builder-state", f"after step {step}: CIF builder #{idx} does not save what "
                     f"its own construction history says; {'; '.join(bad) or _first_diff(got, want)}",
-                    {"builder": idx, "model": model})
-        for idx, (b, model) in enumerate(blocks):
-            got, want = _render_block(b), _render_block(_fresh_block(model))
-            n_chunks = len(model["initial"]) + len(model["added"])
-            keys = sum(len(dict(p)) for p in [*model["initial"], *model["added"]])
-            have = sum(1 for ln in got.splitlines() if ln.startswith("_"))
-            if got != want or b.name != model["name"] or have != keys:
+                    {"builder": idx, "lineage": lineage})
+        for idx, (b, lineage) in enumerate(blocks):
+            got, want = _render_block(b), _render_block(_fresh_block(lineage))
+            name, _, _ = _lineage_summary(lineage)
+            chunks = [arg["pairs"] for k, arg in lineage if k == "new"][0] + \
+                [arg for k, arg in lineage if k == "add"]
+            keys = sum(len(dict(p)) for p in chunks)
+            have = sum(1 for ln in got.splitlines()
+                       if ln.startswith("_") and not ln.startswith("_audit_conform"))
+            if got != want or b.name != name or have != keys:
                 raise Violation(
-                    "builder-state", f"after step {step}: Block #{idx} ({n_chunks} chunks "
-                    f"expected) does not save what its own construction history says; "
-                    f"{_first_diff(got, want)}", {"block": idx, "model": model})
+                    "builder-state", f"after step {step}: Block #{idx} ({len(chunks)} chunks, "
+                    f"{keys} keys expected, {have} written) does not save what its own "
+                    f"construction history says; {_first_diff(got, want)}",
+                    {"block": idx, "lineage": lineage})
     return labels, derived
 
 
@@ -2926,39 +2967,39 @@ _ARGS_DOC = "deep snapshot of every argument (and self) before each call, identi
 
 FACETS = [
     Facet("args_conversion", check_recipe, strategy=lambda tier: group_strategy("conversion"),
-          quick=(2, 250), thorough=(16, 2500), min_nontrivial=0.2,
+          quick=(2, 250), thorough=(16, 1500), min_nontrivial=0.2,
           doc=_ARGS_DOC + "conversion.tof, conversion.beamline, core, beamline_components"),
     Facet("args_chopper_tof", check_recipe, strategy=lambda tier: group_strategy("chopper_tof"),
-          quick=(2, 120), thorough=(16, 1000), min_nontrivial=0.2,
+          quick=(3, 80), thorough=(16, 600), min_nontrivial=0.2,
           doc=_ARGS_DOC + "DiskChopper, filtering, NeXus extraction, chopper cascade"),
     Facet("args_peaks", check_recipe, strategy=lambda tier: group_strategy("peaks"),
-          quick=(2, 90), thorough=(16, 800), min_nontrivial=0.2,
+          quick=(3, 60), thorough=(16, 400), min_nontrivial=0.2,
           doc=_ARGS_DOC + "peak models, FitResult, fit_peaks, remove_peaks"),
     Facet("args_absorption_atoms", check_recipe,
           strategy=lambda tier: group_strategy("absorption_atoms"),
-          quick=(1, 200), thorough=(16, 1000), min_nontrivial=0.2,
+          quick=(1, 200), thorough=(16, 600), min_nontrivial=0.2,
           doc=_ARGS_DOC + "Cylinder, Material, compute_transmission_map, atoms lookups"),
     Facet("args_io", check_recipe, strategy=lambda tier: group_strategy("io"),
-          quick=(3, 60), thorough=(16, 500), min_nontrivial=0.2,
+          quick=(3, 60), thorough=(16, 300), min_nontrivial=0.2,
           doc=_ARGS_DOC + "XYE, CIF objects and builder, SQW writer/reader"),
     Facet("hist_graphs", check_graph_history, strategy=lambda tier: s_graph_history(),
-          quick=(1, 250), thorough=(16, 2000), min_nontrivial=0.3,
+          quick=(2, 125), thorough=(16, 400), min_nontrivial=0.3,
           doc="graph factories / conversion_graph after mutating earlier results, vs a snapshot "
               "from a fresh interpreter"),
     Facet("hist_atoms", check_atom_history,
           strategy=lambda tier: _s_atom_history(["Atom", "Atom", "reference_wavelength"]),
-          quick=(1, 300), thorough=(16, 3000), min_nontrivial=0.3,
+          quick=(1, 300), thorough=(16, 1500), min_nontrivial=0.3,
           doc="Atom.for_isotope / reference_wavelength after mutating earlier results, vs the CSV"),
     Facet("hist_scattering_params", check_atom_history,
           strategy=lambda tier: _s_atom_history(["ScatteringParams"]),
-          quick=(1, 300), thorough=(16, 3000), min_nontrivial=0.3,
+          quick=(1, 300), thorough=(16, 1500), min_nontrivial=0.3,
           doc="ScatteringParams.for_isotope after mutating earlier results, vs the CSV"),
     Facet("hist_models", check_model_history, strategy=lambda tier: s_model_history(),
-          quick=(1, 400), thorough=(16, 4000), min_nontrivial=0.3,
+          quick=(2, 200), thorough=(16, 2000), min_nontrivial=0.3,
           doc="model constructors, with_prefix, +, param_names, param_bounds under mutation of "
               "the returned sets/dicts, vs the constructor arguments"),
     Facet("hist_cif", check_cif_history, strategy=lambda tier: s_cif_history(),
-          quick=(1, 120), thorough=(16, 1000), min_nontrivial=0.3,
+          quick=(1, 120), thorough=(16, 500), min_nontrivial=0.3,
           doc="CIF / Block builders: derived builders and setters must not change their "
               "ancestors; each builder saves what its own lineage says"),
     Facet("cif_save_repeat", check_cif_repeat, strategy=lambda tier: s_cif_repeat(),
